@@ -44,16 +44,59 @@ theorem canonical_layout (r : Record) (h : RecordWF r) :
       (∃ e ∈ r.entries, l ∈ entryLines e ∧ canonicalIndent.isPrefixOf l = true) :=
   KlogV.recordLines_layout r h
 
-/-- D13 witness: a summary line ending in CR does not survive. -/
-example : parseDoc (encode (printRecords [⟨⟨2020, 1, 1, true⟩, none, [['f', 'o', 'o', '\r']], []⟩])) =
-    parseDoc (encode (printRecords [⟨⟨2020, 1, 1, true⟩, none, [['f', 'o', 'o']], []⟩])) := by decide
+-- FALSE: as an equality of whole `DocOut`s the D13 witness does not hold — the record lists agree
+-- (summary `foo` in both), but `DocOut.records` also carries the blocks, and there the line `foo`
+-- has ending `.crlf` in the first text and `.lf` in the second (`#eval` of both sides).
+-- example : parseDoc (encode (printRecords [⟨⟨2020, 1, 1, true⟩, none, [['f', 'o', 'o', '\r']], []⟩])) =
+--     parseDoc (encode (printRecords [⟨⟨2020, 1, 1, true⟩, none, [['f', 'o', 'o']], []⟩])) := by decide
+/-- D13 witness (corrected to the record level): a summary line ending in CR does not survive —
+the record with summary `foo\r` is read back as the record with summary `foo`, exactly like the
+record with summary `foo` itself. -/
+example :
+    (∃ bos, parseDoc (encode (printRecords [⟨⟨2020, 1, 1, true⟩, none, [['f', 'o', 'o', '\r']], []⟩])) =
+      .records [⟨⟨2020, 1, 1, true⟩, none, [['f', 'o', 'o']], []⟩] bos) ∧
+    (∃ bos, parseDoc (encode (printRecords [⟨⟨2020, 1, 1, true⟩, none, [['f', 'o', 'o']], []⟩])) =
+      .records [⟨⟨2020, 1, 1, true⟩, none, [['f', 'o', 'o']], []⟩] bos) := ⟨⟨_, rfl⟩, ⟨_, rfl⟩⟩
 
-/-- Non-vacuity: a record with a should-total, summary, shifted 12-hour range without spaces,
-signed zero duration, open range with extra placeholders and a multi-line entry summary is
-well-formed and round-trips. -/
+/-- Non-vacuity: a record with a should-total, summary, shifted 12-hour range without spaces
+(11 am of the previous day to 0:30 of the next day), signed zero duration, open range with extra
+placeholders and a multi-line entry summary: its printed text … -/
 example : printRecords [⟨⟨2020, 1, 1, false⟩, some (-30), [['a']],
       [⟨.range ⟨11, 0, -1, false⟩ ⟨0, 30, 1, true⟩ false, [['x'], [' ', 'y']]⟩, ⟨.dur ⟨0, false, -1⟩, [[]]⟩,
        ⟨.openRange ⟨8, 5, 0, true⟩ true 2, [[]]⟩]⟩] =
-    "2020/01/01 (-30m!)\na\n    <11:00pm-0:30> x\n         y\n    -0m\n    8:05 - ???\n".toList := by decide
+    "2020/01/01 (-30m!)\na\n    <11:00am-0:30> x\n         y\n    -0m\n    8:05 - ???\n".toList := by decide
+
+/-- … that record satisfies the hypothesis of `roundtrip` … -/
+example : RecordWF ⟨⟨2020, 1, 1, false⟩, some (-30), [['a']],
+      [⟨.range ⟨11, 0, -1, false⟩ ⟨0, 30, 1, true⟩ false, [['x'], [' ', 'y']]⟩, ⟨.dur ⟨0, false, -1⟩, [[]]⟩,
+       ⟨.openRange ⟨8, 5, 0, true⟩ true 2, [[]]⟩]⟩ := by
+  refine ⟨by decide, ?_, ?_, ?_, by decide⟩
+  · intro s hs; cases hs; decide
+  · intro l hl
+    simp only [List.mem_singleton] at hl
+    subst hl
+    exact ⟨by decide, by decide, by decide⟩
+  · intro e he
+    simp only [List.mem_cons, List.not_mem_nil, or_false] at he
+    rcases he with rfl | rfl | rfl
+    · refine ⟨by unfold ValWF; decide, by decide, ?_, by decide⟩
+      intro l hl
+      simp only [List.mem_cons, List.not_mem_nil, or_false] at hl
+      rcases hl with rfl | rfl <;> exact ⟨by decide, by decide⟩
+    · refine ⟨by unfold ValWF Dur.WF; decide, by decide, ?_, by decide⟩
+      intro l hl
+      simp only [List.mem_singleton] at hl
+      subst hl; exact ⟨by decide, by decide⟩
+    · refine ⟨by unfold ValWF; decide, by decide, ?_, by decide⟩
+      intro l hl
+      simp only [List.mem_singleton] at hl
+      subst hl; exact ⟨by decide, by decide⟩
+
+/-- … and its printed text is read back as exactly that record (evaluated). -/
+example : ∃ bos, parseDoc (encode (printRecords [⟨⟨2020, 1, 1, false⟩, some (-30), [['a']],
+      [⟨.range ⟨11, 0, -1, false⟩ ⟨0, 30, 1, true⟩ false, [['x'], [' ', 'y']]⟩, ⟨.dur ⟨0, false, -1⟩, [[]]⟩,
+       ⟨.openRange ⟨8, 5, 0, true⟩ true 2, [[]]⟩]⟩])) = .records [⟨⟨2020, 1, 1, false⟩, some (-30), [['a']],
+      [⟨.range ⟨11, 0, -1, false⟩ ⟨0, 30, 1, true⟩ false, [['x'], [' ', 'y']]⟩, ⟨.dur ⟨0, false, -1⟩, [[]]⟩,
+       ⟨.openRange ⟨8, 5, 0, true⟩ true 2, [[]]⟩]⟩] bos := ⟨_, rfl⟩
 
 end KlogV.C09
